@@ -111,7 +111,7 @@ class C01(core.Property):
         "HappyModel.C01.autoterm_cancelled_primary_keeps_alive",
     ]
     quick_cases = 1200
-    thorough_cases = 60000
+    thorough_cases = 30000
     case_timeout_s = 20
     rule = ("programs: 1–4 scripted entities, ≤6 event kinds forming a DAG (+ a self-rearming daemon tick), ≤11 pre-run "
             "events on a small time grid with deliberate same-nanosecond clusters, daemon / pre-cancelled events, handlers that "
